@@ -295,7 +295,11 @@ func FieldKey(recv types.Type, index []int, v *types.Var) string {
 		}
 		fld := st.Field(idx)
 		if i == len(index)-1 {
-			return owner + "." + fld.Name()
+			k := owner + "." + fld.Name()
+			if o, ok := renamedField[k]; ok {
+				return o
+			}
+			return k
 		}
 		t = fld.Type()
 	}
